@@ -29,7 +29,7 @@ HALF = 0.5e-6
 
 def cases(tier, seed):
     rng = np.random.default_rng([19, seed])
-    n = 400 if tier == "quick" else 10000
+    n = 400 if tier == "quick" else 300000
     return [{"s": int(rng.integers(1 << 30)), "shape": ["tree", "rings", "assembly", "metal", "union"][j % 5],
              "types": ["pool", "table", "tiny"][(j // 5) % 3], "exclude": ["none", "random", "fragment"][(j // 15) % 3]} for j in range(n)]
 
@@ -378,7 +378,7 @@ def run_case(case, ctx):
 
 def requirements(stats, tier):
     need = []
-    if stats.get("graphs") < (350 if tier == "quick" else 8000):
+    if stats.get("graphs") < (350 if tier == "quick" else 250000):
         need.append("too few graphs: %d" % stats.get("graphs"))
     if stats.nseen("shape") < 5 or stats.nseen("type_source") < 3 or stats.nseen("exclude_class") < 3:
         need.append("not all graph / type / exclusion classes observed")
